@@ -114,9 +114,14 @@ claim("C08", "exploration", T2 + "; wrapper contracts (argument forwarding, filt
       "Bounded (deciding): every tree <= 5 leaves x every non-empty taxon subset x both flags: induced-subtree clades, merged lengths, path sums, six API variants agree, "
       "source unchanged, extraction_source, removed-node reports. T1: each extract/prune/retain wrapper forwards every shared parameter and builds the stated filter.",
       "the induced-subtree clause itself is bounded only", "DESIGN.md section 5 C08")
-claim("C09", "exploration", T2,
-      "Bounded: 8 data types x construction routes x dimensions x 11-15 target variants, special labels, multi-namespace data sets, random matrices.",
-      "writers/readers and xml.etree are outside contract reach (DESIGN.md section 6); two recorded known findings", "DESIGN.md section 5 C09")
+claim("C09", "exploration", T2 + "; a small T1 part (AST obligations, no solver) for the glue around the writers and readers",
+      "Bounded (deciding): 8 data types x construction routes x dimensions x 11-15 target variants, special labels, multi-namespace data sets, random matrices. "
+      "Discharged on the AST (T1, glue clause only, not what the level is claimed for): as_string / write(file=) / write(path=) hand the caller's schema and options, "
+      "untouched, to one writer made for that schema, which is given exactly [self] (or the data set with the two exclusion flags) and the caller's destination; as_string "
+      "returns the whole buffer; CharacterMatrix.get forces the class's own data type into the reader options, reads the caller's stream, and returns the matrix at the "
+      "offset asked for (default 0) or refuses one of another data type.",
+      "writers/readers and xml.etree are outside contract reach (DESIGN.md section 6); two recorded known findings; open()/StringIO and dataio.get_writer/get_reader ASSUMED as documented",
+      "DESIGN.md section 5 C09")
 claim("C10", "proof", T1 + " (dictionaries as maps; quantified representation invariant); " + T2,
       "Proved (T1): add_taxon, remove_taxon, clear, sort, reverse, taxon_bitmask, accession_index, all_taxa_bitmask preserve the namespace invariant NS, never change the "
       "index/bit of a remaining member, and give a new member a fresh index >= the old counter (no reuse, no sharing); every label-lookup method hands the call's "
